@@ -31,4 +31,24 @@ META = {
         text="Exploration: thousands of generated oracle sets / batches / bridge calls over the full uint64 and uint256 ranges are hashed by fxcore (both ABI variants) and by the reference transcribed from FxBridgeLogic.sol; on the real keeper generated well-formed and transplanted / malformed confirmations must be accepted exactly when the reference verification says so and are stored at most once per object and oracle.",
         note="Contract side = transcription of the Solidity abi.encode argument lists (no compiler available); go-ethereum keccak/secp256k1 trusted.",
     ),
+    "C04": dict(
+        technique="stateful property-based testing (rapid-generated histories as pure data) with a conservation ledger kept by the harness from what it fed in, evaluated over bank, ERC-20 and crosschain stores after every step, plus exact per-account deltas per operation",
+        text="Exploration: generated histories through all three doors (Cosmos messages, precompile calls, oracle claims) over FX, a module-owned multi-chain pair and an externally-owned pair on three chains; after every step held + in-flight + pending-inbound = initial + observed deposits - withdrawals observed as executed per token, and every tracked account's holdings move by exactly what the operation states.",
+        note="The harness is the external chain (admissible events only). Two genuine defects of this snapshot are recorded in known_findings.json and excluded by construction (counted in the evidence).",
+    ),
+    "C05": dict(
+        technique="model-based stateful property-based testing (rapid): reference model of pool / batches / outgoing calls compared with the decoded stores after every generated operation; releases are observed and validated rather than predicted",
+        text="Exploration: each generated step's resulting pool, batches and bridge-call records must equal the model (every id in exactly one place, fields as supplied, ids increasing), settlements pay exactly amount+fee once to the creator, only the creator can cancel, cancelled or superseded batches return their transfers unchanged, and a call whose external execution was observed is never refunded.",
+        note="Same machine as C04/C06.",
+    ),
+    "C06": dict(
+        technique="stateful property-based testing (rapid) with the harness acting as a model of the external bridge contract (height < timeout, increasing batch nonce); boundary heights timeout-1 / timeout / timeout+1 generated explicitly; invariant over the history",
+        text="Exploration: generated creation / execution / timeout interleavings under generated timeout and block-time parameters and fxcore height jumps; a batch or call may disappear for timeout only in a step that observed an event whose height is >= its timeout, nothing can be batched or called out while no external height is observed (governance can wipe it), admissible executions are never rejected and an externally executed object is never refunded.",
+        note="Same machine as C04/C05.",
+    ),
+    "C11": dict(
+        technique="stateful property-based testing (rapid) of the staking precompile through real EVM transactions (EOAs and a hand-assembled interpreter contract), with exact per-transfer oracles and all registered crisis invariants evaluated after every step",
+        text="Exploration: generated delegate / undelegate / redelegate / withdraw / approve / transfer / transferFrom histories (self-transfers, partial and off-by-one amounts) interleaved with real reward allocation and slashing; shares move exactly, validators are untouched by transfers, rewards are paid, delegations sum to validator shares, the SDK's staking / distribution / bank / gov invariants hold at every step and everybody can exit at the end.",
+        note="Reward allocation and slashing are the SDK keepers' own functions called at message level.",
+    ),
 }
